@@ -3,6 +3,8 @@ CONSTANTS
   LegacyBreak = FALSE
   SwapIn = ""
   NoShadow = FALSE
+  NoPreCheck = FALSE
+  XParU = {}
   ShallowSub = FALSE
   IgnoreNs = FALSE
   ModSharedPath = FALSE
